@@ -85,6 +85,16 @@ class Frame:
     def __len__(self):
         return len(self.rows)
 
+    def to_numpy(self, *a, **k):
+        if a or k:
+            raise Unsupported("DataFrame.to_numpy with arguments")
+        body = [list(r[self.n_index:]) for r in self.rows]
+        if not body:
+            return np.zeros((0, len(self.columns)))
+        if any(isinstance(v, SR) for r in body for v in r):
+            return sarr(body)
+        return np.array(body)
+
     def __getitem__(self, name):
         if isinstance(name, (list, tuple)):
             raise Unsupported("frame[list]")
@@ -98,7 +108,7 @@ class Frame:
         raise Unsupported(f"DataFrame.{nm} is not modelled")
 
 
-def read_csv_model(lines, truth, sep=",", comment=None, skiprows=None, header="infer", names=None, **kw):
+def read_csv_model(lines, truth, sep=",", comment=None, skiprows=None, header="infer", names=None, usecols=None, **kw):
     """pandas.read_csv on a list of line objects.  `truth(x)` turns the answer of a line predicate into a Python bool (forking for
     symbolic lines).  Line protocol: is_comment(ch) -> full-line comment?; fields() -> list of whitespace separated fields or None if
     the line is not a plain data line (then `junk_kind()` names what it is)."""
@@ -136,8 +146,26 @@ def read_csv_model(lines, truth, sep=",", comment=None, skiprows=None, header="i
             # a '#' / '@' line that reaches the tokenizer: its words become a row (or a ParserError) -- never the table of the data lines
             raise ModelParserError(f"a {ln.junk_kind()} line is parsed as data")
         rows.append(list(f))
+    if usecols is not None:
+        # usecols=[positions]: only these fields of every row, in increasing position order (pandas ignores the order given)
+        try:
+            cols = sorted({int(c) for c in usecols})
+        except (TypeError, ValueError):
+            raise Unsupported("read_csv usecols by label / callable")
+        if rows and cols and cols[-1] >= max(len(r) for r in rows):
+            raise ModelParserError("Usecols do not match columns, columns expected but not found")
+        if names is not None:
+            if len(names) == len(cols):
+                pass                                   # names for the selected columns only
+            else:
+                names = [list(names)[c] for c in cols] if len(names) > cols[-1] else names
+        rows = [[r[c] for c in cols] for r in rows]
+        if names is None:
+            names = list(cols)                         # header=None: integer labels of the selected positions
     if names is None:
-        raise Unsupported("read_csv without names")
+        if not rows:
+            return Frame([], [], 0)
+        names = list(range(max(len(r) for r in rows)))  # header=None without names: integer labels
     names = list(names)
     n_index = 0
     if rows:
@@ -587,6 +615,22 @@ def selftest_xvg(seed):
                     if mt.rows:
                         assert mt.n_index == 0
                         assert np.array_equal(pt.to_numpy(dtype=float), np.array(mt.rows, dtype=float), equal_nan=True), ("values", h, a, skip, comment)
+        # usecols=[position] without names (header=None): the selected field of every row, labelled by its position
+        for trial in range(12):
+            nl = int(rng.integers(0, 3))
+            D = int(rng.integers(1, 4))
+            data = [[round(float(x), 6) for x in rng.normal(size=1 + nl)] for _ in range(D)]
+            at = [None] + [(j, f"L {j}") for j in range(nl)]
+            txt = xvg_text(13, at, data)
+            with open(fn, "w") as f:
+                f.write(txt)
+            for c in range(1 + nl):
+                kw = dict(sep=r"\s+", comment="@", skiprows=13, header=None, usecols=[c])
+                pt = pd.read_csv(fn, **kw)
+                mt = read_csv_model([CLine(t_) for t_ in txt.splitlines()], bool, **kw)
+                assert list(pt.columns) == mt.columns and pt.shape == mt.shape == (D, 1), ("usecols", pt.shape, mt.shape)
+                assert np.array_equal(pt.to_numpy(dtype=float), np.asarray(mt.to_numpy(), dtype=float)), "usecols values"
+                n += 1
     finally:
         for f_ in os.listdir(d):
             os.remove(os.path.join(d, f_))
